@@ -20,7 +20,7 @@ MODEL = {
     "C05": "Model/Ops (operator functions on Int), Model/Shunt and Model/ShuntP (the operator-precedence loop, with leading prefix operators), Model/Parse + Model/Eval (transliterated parser/evaluator), Spec/Arith (independent evaluator), Gen/Operators",
     "C06": "Model/Insn.getAsInt, Model/Directive (every data directive), Gen/Codecs",
     "C07": "Model/State (report latch), Model/Cli (main_cli control flow), Gen/Reports",
-    "C08": "Model/Insn, Model/Directive, Model/Defs, Model/State (Loud invariant over the error-log monad)",
+    "C08": "Model/Insn, Model/Directive, Model/Defs, Model/State (Loud invariant over the error-log monad), Model/Await (the awaiting stack: termination and cycle reports on cyclic graphs)",
     "C09": "Model/Lin (affine forms in the link base), Model/Asm",
     "C10": "Model/Parse (intOf, digitVal, lowerS, table lookups), Model/Insn (regNum, encodeRM), Model/Directive (wordList/wordDir)",
     "C11": "Model/Scope (qualified names, lookup, define, resolve), Model/Asm",
